@@ -255,7 +255,9 @@ class BNCopy(Contract):
         yield "any", {"self": g}, {}
 
     def pre(self, ex, st, args):
-        return wf_graph(args["self"])
+        # a BayesianNetwork is acyclic (invariant kept by every editing operation, see BNAddEdge / DAGAddEdgesFrom): copy re-adds the
+        # edges through add_edges_from, whose acyclicity guard must not fire
+        return z3.And(wf_graph(args["self"]), ex.lib.theory(ex).acyclic(args["self"].fields["@E"]))
 
     def snapshot(self, ex, st, args):
         return graph_snapshot(args["self"])
@@ -365,3 +367,149 @@ class DBNAddEdge(Contract):
 
 
 register(DBNAddEdge())
+
+
+# --------------------------------------------------------------------------------------------------- add_edges_from
+class DAGAddEdgesFrom(Contract):
+    """DAG.add_edges_from (inherited by BayesianNetwork): every listed edge is added through self.add_edge, so on a
+    BayesianNetwork the acyclicity guard sees each of them, with or without weights=.
+      return  =>  E = E0 + ebunch, nodes = N0 + endpoints, latents kept, invariant kept
+      raise   <=> a non-empty weights list of another length, or (BayesianNetwork) E0 + ebunch has a directed cycle;
+                  then E0 <= E <= E0 + ebunch and the invariant still holds (a prefix of the list was applied)."""
+    file = "pgmpy/base/DAG.py"
+    qual = "DAG.add_edges_from"
+    propagates = ("BayesianNetwork.add_edge",)
+
+    def variants(self, ex):
+        from vf.pyvc.lib import PairAA
+        for cls in ("DAG", "BayesianNetwork"):
+            for wl in ("none", "list"):
+                g = new_graph(cls, "g")
+                eb = Coll("list", PairAA, z3.Const("ebunch", set_sort(PairAA)))
+                eb.len_z = z3.Int("n_ebunch")
+                if wl == "none":
+                    w = NONE
+                else:
+                    w = Coll("list", Opaque, z3.Const("weights", set_sort(Opaque)))
+                    w.len_z = z3.Int("n_weights")
+                yield f"self={cls},weights={wl}", {"self": g, "ebunch": eb, "weights": w}, {}
+
+    @staticmethod
+    def fin(ex, args):
+        """ghost: the edge relation E0 + ebunch (defined over the pre-state on first use)"""
+        from vf.pyvc.lib import PairAA, RelSort
+        g = args["self"]
+        if getattr(g, "_fin", None) is None:
+            a, b = fresh("a", Atom), fresh("b", Atom)
+            fin = fresh("Efin", RelSort)
+            ex.axioms.append(z3.ForAll([a, b], fin[a, b] == z3.Or(g.fields["@E"][a, b], args["ebunch"].mem[PairAA.mk(a, b)])))
+            g._fin = fin
+            # monotonicity instances against every edge relation already in play (theorems of the least fix-point; a caller that
+            # passes the edges of an acyclic graph needs Path_fin <= Path_thatgraph to exclude the ValueError)
+            th = ex.lib.theory(ex)
+            for k, (X, PX) in list(th.rels.items()):
+                if isinstance(k, int) and not X.eq(fin):
+                    ex.axioms.append(th.induct_rel(fin, lambda x, y, PX=PX: PX(x, y)))
+        return g._fin
+
+    def pre(self, ex, st, args):
+        from vf.pyvc.engine import nonempty
+        g = args["self"]
+        th = ex.lib.theory(ex)
+        self.fin(ex, args)
+        parts = [wf_graph(g)]
+        if g.cls == "BayesianNetwork":
+            parts.append(th.acyclic(g.fields["@E"]))
+        for c in (args["ebunch"], args["weights"]):   # type invariant of list parameters: len >= 0, len == 0 iff empty
+            if isinstance(c, Coll) and c.len_z is not None and c.mem is not None:
+                parts += [c.len_z >= 0, (c.len_z == 0) == z3.Not(nonempty(c.mem, c.esort))]
+        return z3.And(*parts)
+
+    def snapshot(self, ex, st, args):
+        return graph_snapshot(args["self"])
+
+    def raises(self, ex, st, args):
+        g, w = args["self"], args["weights"]
+        th = ex.lib.theory(ex)
+        conds = []
+        if g.cls == "BayesianNetwork":
+            conds.append(z3.Not(th.acyclic(self.fin(ex, args))))
+        if isinstance(w, Coll):
+            conds.append(z3.And(w.len_z != 0, w.len_z != args["ebunch"].len_z))
+        return {"ValueError": z3.Or(*conds) if conds else z3.BoolVal(False)}
+
+    def between(self, ex, st, args, old, lemmas=True):
+        """E0 <= E <= E0 + ebunch, nodes only grow by endpoints of listed edges, latents kept, invariant kept"""
+        from vf.pyvc.lib import PairAA
+        g = args["self"]
+        th = ex.lib.theory(ex)
+        fin, E, eb = self.fin(ex, args), g.fields["@E"], args["ebunch"].mem
+        a, b = fresh("a", Atom), fresh("b", Atom)
+        parts = [z3.ForAll([a, b], z3.Implies(old["@E"][a, b], E[a, b])), z3.ForAll([a, b], z3.Implies(E[a, b], fin[a, b])),
+                 z3.ForAll([a], z3.Implies(old["@nodes"][a], g.fields["@nodes"][a])),
+                 z3.ForAll([a], z3.Implies(g.fields["@nodes"][a], z3.Or(old["@nodes"][a], z3.Exists([b], z3.Or(eb[PairAA.mk(a, b)], eb[PairAA.mk(b, a)]))))),
+                 z3.ForAll([a], g.fields["latents"].mem[a] == old["latents"][a]), wf_graph(g)]
+        if g.cls == "BayesianNetwork":
+            parts.append(th.acyclic(E))
+        return z3.And(*parts)
+
+    def on_raise(self, ex, st, args, old, exc):
+        return self.between(ex, st, args, old)
+
+    def post(self, ex, st, args, old, result):
+        from vf.pyvc.lib import PairAA
+        g = args["self"]
+        th = ex.lib.theory(ex)
+        a, b = fresh("a", Atom), fresh("b", Atom)
+        eb, fin = args["ebunch"].mem, self.fin(ex, args)
+        if g.cls == "BayesianNetwork":
+            # ghost lemma (monotonicity of the least fix-point): Path_fin <= Path_E once fin <= E
+            st.assume(th.induct_rel(fin, lambda x, y: th.path(g.fields["@E"])(x, y)))
+        out = {"edges": z3.ForAll([a, b], g.fields["@E"][a, b] == z3.Or(old["@E"][a, b], eb[PairAA.mk(a, b)])),
+               "nodes": z3.ForAll([a], g.fields["@nodes"][a] == z3.Or(old["@nodes"][a], z3.Exists([b], z3.Or(eb[PairAA.mk(a, b)], eb[PairAA.mk(b, a)])))),
+               "latents": z3.ForAll([a], g.fields["latents"].mem[a] == old["latents"][a]),
+               "wf": wf_graph(g)}
+        if g.cls == "BayesianNetwork":
+            out["acyclic"] = th.acyclic(g.fields["@E"])
+        return out
+
+    def inv(self, ex, st, args, old, listed):
+        """E = E0 + the edges listed so far (same for nodes), latents kept, invariant kept"""
+        from vf.pyvc.lib import PairAA
+        g = args["self"]
+        th = ex.lib.theory(ex)
+        E, fin = g.fields["@E"], self.fin(ex, args)
+        a, b = fresh("a", Atom), fresh("b", Atom)
+        if g.cls == "BayesianNetwork":
+            # ghost lemma: Path_E <= Path_fin because E <= fin  (used where add_edge refuses an edge: the cycle is one of fin)
+            st.assume(th.induct_rel(E, lambda x, y: th.path(fin)(x, y)))
+            # and Path_fin <= Path_E once every listed edge is in (the instance is a theorem of the least fix-point in any state;
+            # its premise, closure of Path_E under fin-steps, holds at loop exit)
+            st.assume(th.induct_rel(fin, lambda x, y: th.path(E)(x, y)))
+        parts = [z3.ForAll([a, b], E[a, b] == z3.Or(old["@E"][a, b], listed(a, b))),
+                 z3.ForAll([a], g.fields["@nodes"][a] == z3.Or(old["@nodes"][a], z3.Exists([b], z3.Or(listed(a, b), listed(b, a))))),
+                 z3.ForAll([a], g.fields["latents"].mem[a] == old["latents"][a]), wf_graph(g)]
+        if g.cls == "BayesianNetwork":
+            parts.append(th.acyclic(E))
+        return z3.And(*parts)
+
+    # loop 0: for index in range(len(ebunch))     (weights given)
+    def inv0(self, ex, st, args, old, ghost):
+        from vf.pyvc.lib import PairAA
+        eb = st.env["ebunch"]
+        at, idx = ex.seq_of(eb, st)
+        done = ghost["done"]
+        i = fresh("i", z3.IntSort())
+        return z3.And(self.inv(ex, st, args, old, lambda a, b: z3.Exists([i], z3.And(done[i], at(i) == PairAA.mk(a, b)))),
+                      z3.ForAll([i], z3.Implies(done[i], z3.And(0 <= i, i < eb.len_z))))
+
+    # loop 1: for edge in ebunch
+    def inv1(self, ex, st, args, old, ghost):
+        from vf.pyvc.lib import PairAA
+        done = ghost["done"]
+        return self.inv(ex, st, args, old, lambda a, b: done[PairAA.mk(a, b)])
+
+    invariants = property(lambda self: {0: self.inv0, 1: self.inv1})
+
+
+register(DAGAddEdgesFrom())
